@@ -6,6 +6,7 @@ import (
 	"context"
 	"errors"
 	"fmt"
+	"sync"
 	"testing"
 	"testing/synctest"
 	"time"
@@ -412,4 +413,64 @@ func TestVerifC09Account(t *testing.T) {
 		out, held, inMap, _, _ := c09AccountRun(t, nil, naf)
 		report("account-callback-"+naf, nil, out, held, inMap)
 	}
+}
+
+// Two storages in one process (two clusters served by one program), the SAME subject on both,
+// the operations overlapping in time: each operation releases the lock it took on ITS storage
+// (the process-wide record of held locks is keyed by name only — it must not make one
+// operation's release swallow the other's).
+func TestVerifC09TwoStorages(t *testing.T) {
+	o := vOpen(t, "C09two")
+	defer o.Close()
+	ca := vNewCA("c09two")
+	for _, firstFinishesFirst := range []bool{true, false} {
+		synctest.Test(t, func(t *testing.T) {
+			st1, st2 := vNewMem(), vNewMem()
+			iss1, iss2 := vNewIssuer("c09ca", ca), vNewIssuer("c09ca", ca)
+			d1, d2 := 10*time.Second, 3*time.Second
+			if !firstFinishesFirst {
+				d1, d2 = 3*time.Second, 10*time.Second
+			}
+			iss1.Behave = func(int, []string) error { time.Sleep(d1); return nil }
+			iss2.Behave = func(int, []string) error { time.Sleep(d2); return nil }
+			c1, cfg1 := vNewCfg(st1, []Issuer{iss1})
+			c2, cfg2 := vNewCfg(st2, []Issuer{iss2})
+			defer c1.Stop()
+			defer c2.Stop()
+			var wg sync.WaitGroup
+			var e1, e2 error
+			wg.Add(2)
+			go func() { defer wg.Done(); e1 = cfg1.ObtainCertSync(context.Background(), "two.c09.example") }()
+			go func() { defer wg.Done(); time.Sleep(time.Second); e2 = cfg2.ObtainCertSync(context.Background(), "two.c09.example") }()
+			wg.Wait()
+			held := append(vHeldLocks(st1), vHeldLocks(st2)...)
+			left := vLeftovers()
+			replay := map[string]any{"first_finishes_first": firstFinishesFirst, "held_in_storage": held, "on_record": left, "errors": fmt.Sprint(e1, e2)}
+			if len(held) > 0 {
+				o.Mon("C09 two-storages lock-held-in-storage-after-return", replay)
+			}
+			if len(left) > 0 {
+				o.Mon("C09 two-storages lock-left-on-record", replay)
+				locksMu.Lock()
+				for k := range locks {
+					delete(locks, k)
+				}
+				locksMu.Unlock()
+			}
+			if e1 != nil || e2 != nil {
+				o.Mon("C09 two-storages operation-failed", replay)
+			}
+			o.Stat("two_storage_runs", 1)
+		})
+	}
+}
+
+func vHeldLocks(m *vMem) []string {
+	m.mu.Lock()
+	defer m.mu.Unlock()
+	var out []string
+	for k := range m.held {
+		out = append(out, k)
+	}
+	return out
 }
